@@ -52,6 +52,25 @@ def oracle(chk):
                 k = getattr(kernels, name)(scale=jnp.asarray(scale), distance=mobj, **{a: jnp.asarray(v) for a, v in extra.items()})
                 got = k.evaluate(jnp.asarray(x1), jnp.asarray(x2))
                 chk_val(f"{name}/{mname}", got, f(mf(x1, x2) / scale, extra), x1=x1.tolist(), x2=x2.tolist(), scale=scale, **extra)
+    # the distances themselves, including nearly coincident points (separations 1e-2 .. 1e-8 in 1-4 dimensions): relative accuracy
+    for d in (1, 2, 3, 4):
+        for k in range(2, 9):
+            x1 = rng.normal(size=d)
+            x2 = x1 + 10.0 ** (-k) * rng.uniform(0.5, 1.0, size=d) * rng.choice([-1.0, 1.0], size=d)
+            for mname, mobj, mf in (("L1", D.L1Distance(), l1), ("L2", D.L2Distance(), l2)):
+                got = float(mobj.distance(jnp.asarray(x1), jnp.asarray(x2)))
+                want = float(mf(x1, x2))
+                n_eval += 1
+                distinct.add((f"{mname}Distance", want))
+                if not (abs(got - want) <= 1e-7 * want):
+                    bad.append(dict(what=f"{mname}Distance at nearly coincident points", expected=want, observed=got,
+                                    x1=x1.tolist(), x2=x2.tolist()))
+                got2 = float(mobj.squared_distance(jnp.asarray(x1), jnp.asarray(x2)))
+                want2 = float(np.sum((x1 - x2) ** 2)) if mname == "L2" else want ** 2
+                n_eval += 1
+                if not (abs(got2 - want2) <= 1e-7 * want2):
+                    bad.append(dict(what=f"{mname}Distance.squared_distance at nearly coincident points", expected=want2, observed=got2,
+                                    x1=x1.tolist(), x2=x2.tolist()))
     # kernel matrices: symmetric, diagonal = dedicated diagonal evaluation, PSD on 1-D inputs (support only)
     for name in prof:
         extra = {"gamma": 0.7} if name == "ExpSineSquared" else {"alpha": 1.3} if name == "RationalQuadratic" else {}
@@ -94,7 +113,7 @@ def oracle(chk):
         chk_val("qs.Celerite", qs.Celerite(*(jnp.asarray(v) for v in (a, b, c, d))).evaluate(A1, A2),
                 np.exp(-c * tau) * (a * np.cos(d * tau) + b * np.sin(d * tau)), t1=t1, t2=t2, c=c, d=d)
         w = float(rng.uniform(0.5, 2))
-        for q in (0.5, float(rng.uniform(0.52, 4)), float(rng.uniform(0.05, 0.49))):
+        for q in (0.5, float(rng.uniform(0.52, 4)), float(rng.uniform(0.05, 0.49)), 0.5 + 1.001e-3, 0.5 - 1.001e-3, 0.5 + 2.5e-3, 0.5 - 2.5e-3):
             if q == 0.5:
                 want = np.exp(-w * tau) * (1 + w * tau)
             elif q > 0.5:
